@@ -338,7 +338,7 @@ func (g *ValueGen) Gen(t *Type, depth int) *Val {
 				continue
 			}
 			if cat == "set" {
-				c := e.Canon()
+				c := EqCanon(e)
 				if seen[c] || hasNaN(e) {
 					continue
 				}
@@ -357,7 +357,7 @@ func (g *ValueGen) Gen(t *Type, depth int) *Val {
 			if k == nil || e == nil || hasNaN(k) {
 				continue
 			}
-			c := k.Canon()
+			c := EqCanon(k)
 			if seen[c] {
 				continue
 			}
@@ -617,4 +617,31 @@ func HasStructVal(v *Val) bool {
 		}
 	}
 	return false
+}
+
+// EqCanon is Canon under Go equality of doubles (-0 == +0): used to keep set elements and map
+// keys distinct in the sense the generated code uses.
+func EqCanon(v *Val) string {
+	c := v.Clone()
+	var walk func(x *Val)
+	walk = func(x *Val) {
+		if x == nil {
+			return
+		}
+		if x.Cat == "double" && x.D == 0 {
+			x.D = 0
+		}
+		for _, e := range x.L {
+			walk(e)
+		}
+		for _, e := range x.M {
+			walk(e[0])
+			walk(e[1])
+		}
+		for _, e := range x.F {
+			walk(e)
+		}
+	}
+	walk(c)
+	return c.Canon()
 }
